@@ -127,6 +127,37 @@ pub mod time {
         pub fn elapsed(&self) -> Duration {
             Instant::now().duration_since(*self)
         }
+        pub fn saturating_duration_since(&self, earlier: Instant) -> Duration {
+            self.duration_since(earlier)
+        }
+        pub fn checked_duration_since(&self, earlier: Instant) -> Option<Duration> {
+            if self.0 >= earlier.0 {
+                Some(Duration::from_nanos(self.0 - earlier.0))
+            } else {
+                None
+            }
+        }
+        pub fn checked_add(&self, d: Duration) -> Option<Instant> {
+            u64::try_from(d.as_nanos()).ok().and_then(|n| self.0.checked_add(n)).map(Instant)
+        }
+    }
+    impl std::ops::Add<Duration> for Instant {
+        type Output = Instant;
+        fn add(self, d: Duration) -> Instant {
+            Instant(self.0.saturating_add(u64::try_from(d.as_nanos()).unwrap_or(u64::MAX)))
+        }
+    }
+    impl std::ops::Sub<Duration> for Instant {
+        type Output = Instant;
+        fn sub(self, d: Duration) -> Instant {
+            Instant(self.0.saturating_sub(u64::try_from(d.as_nanos()).unwrap_or(u64::MAX)))
+        }
+    }
+    impl std::ops::Sub<Instant> for Instant {
+        type Output = Duration;
+        fn sub(self, o: Instant) -> Duration {
+            self.duration_since(o)
+        }
     }
 }
 
@@ -217,7 +248,70 @@ pub mod io {
             StdinLock.read_line(buf)
         }
     }
+    /// stdout for code that writes through io::Write instead of println!
+    pub struct Stdout {
+        buf: Vec<u8>,
+    }
+    pub fn stdout() -> Stdout {
+        Stdout { buf: vec![] }
+    }
+    impl Stdout {
+        pub fn lock(&self) -> Stdout {
+            Stdout { buf: vec![] }
+        }
+    }
+    impl std::io::Write for Stdout {
+        fn write(&mut self, data: &[u8]) -> std::io::Result<usize> {
+            self.buf.extend_from_slice(data);
+            while let Some(pos) = self.buf.iter().position(|b| *b == b'\n') {
+                let line: Vec<u8> = self.buf.drain(..=pos).collect();
+                let text = String::from_utf8_lossy(&line[..line.len() - 1]).to_string();
+                super::emit(text.trim_end_matches('\r'));
+            }
+            Ok(data.len())
+        }
+        fn flush(&mut self) -> std::io::Result<()> {
+            Ok(())
+        }
+    }
+    impl Drop for Stdout {
+        fn drop(&mut self) {
+            if !self.buf.is_empty() && !std::thread::panicking() {
+                let text = String::from_utf8_lossy(&self.buf).to_string();
+                self.buf.clear();
+                super::emit(&text);
+            }
+        }
+    }
+    pub struct Lines(StdinLock);
+    impl Iterator for Lines {
+        type Item = std::io::Result<String>;
+        fn next(&mut self) -> Option<Self::Item> {
+            let mut s = String::new();
+            match self.0.read_line(&mut s) {
+                Ok(0) => None,
+                Ok(_) => {
+                    if s.ends_with('\n') {
+                        s.pop();
+                        if s.ends_with('\r') {
+                            s.pop();
+                        }
+                    }
+                    Some(Ok(s))
+                }
+                Err(e) => Some(Err(e)),
+            }
+        }
+    }
+    impl Stdin {
+        pub fn lines(self) -> Lines {
+            Lines(StdinLock)
+        }
+    }
     impl StdinLock {
+        pub fn lines(self) -> Lines {
+            Lines(self)
+        }
         /// std's contract: appends the bytes up to and including '\n'; at end of input the
         /// remaining bytes without one; then Ok(0) for ever.
         pub fn read_line(&mut self, buf: &mut String) -> std::io::Result<usize> {
@@ -250,7 +344,38 @@ pub mod process {
 pub mod thread {
     pub use std::time::Duration;
 
-    pub struct JoinHandle<T>(std::marker::PhantomData<T>);
+    pub struct JoinHandle<T> {
+        child: Option<usize>,
+        result: std::sync::mpsc::Receiver<T>,
+    }
+    impl<T> JoinHandle<T> {
+        /// waits (in virtual time, 50 us steps) until the simulated thread has ended
+        pub fn join(self) -> std::thread::Result<T> {
+            if let Some(child) = self.child {
+                loop {
+                    let done = super::with_sim(|t| t.thread_finished(child)).unwrap_or(true);
+                    if done {
+                        break;
+                    }
+                    // sleeping is thread-local; the effect point is what lets the child run
+                    super::with_sim(|t| {
+                        t.sleep(50_000);
+                        t.effect_point();
+                    });
+                }
+            }
+            match self.result.try_recv() {
+                Ok(v) => Ok(v),
+                Err(_) => Err(Box::new("simulated thread panicked")),
+            }
+        }
+        pub fn is_finished(&self) -> bool {
+            match self.child {
+                Some(c) => super::with_sim(|t| t.thread_finished(c)).unwrap_or(true),
+                None => true,
+            }
+        }
+    }
 
     pub fn spawn<F, T>(f: F) -> JoinHandle<T>
     where
@@ -258,16 +383,19 @@ pub mod thread {
         T: Send + 'static,
     {
         let in_sim = super::CTX.with(|c| matches!(&*c.borrow(), super::Ctx::Sim(_)));
+        let (rtx, rrx) = std::sync::mpsc::channel::<T>();
+        let mut child = None;
         if in_sim {
             let b: Box<dyn FnOnce() + Send + 'static> = Box::new(move || {
-                f();
+                let v = f();
+                let _ = rtx.send(v);
             });
-            super::with_sim(move |t| t.spawn(b));
+            child = super::with_sim(move |t| t.spawn(b)).flatten();
         } else {
             // outside a simulation (not used by any check): run inline
-            f();
+            let _ = rtx.send(f());
         }
-        JoinHandle(std::marker::PhantomData)
+        JoinHandle { child, result: rrx }
     }
 
     pub fn sleep(d: Duration) {
@@ -278,7 +406,7 @@ pub mod thread {
 // ------------------------------------------------------------------------------------ channel
 
 pub mod mpsc {
-    pub use std::sync::mpsc::{RecvError, SendError, TryRecvError};
+    pub use std::sync::mpsc::{RecvError, RecvTimeoutError, SendError, TryRecvError};
     use std::sync::atomic::{AtomicU64, Ordering};
     use std::sync::Arc;
 
@@ -379,9 +507,43 @@ pub mod mpsc {
             }
             r
         }
+        /// blocking receive, emulated by polling in virtual time (50 us steps); a channel whose
+        /// senders are all gone returns Err like std's
         pub fn recv(&self) -> Result<T, RecvError> {
-            // not used by the engine; provided for completeness (no simulation support)
-            self.inner.recv()
+            if !in_sim() {
+                return self.inner.recv();
+            }
+            loop {
+                match self.try_recv() {
+                    Ok(v) => return Ok(v),
+                    Err(TryRecvError::Disconnected) => return Err(RecvError),
+                    Err(TryRecvError::Empty) => {
+                        with_sim(|s| s.sleep(50_000));
+                    }
+                }
+            }
+        }
+        pub fn recv_timeout(&self, timeout: std::time::Duration) -> Result<T, std::sync::mpsc::RecvTimeoutError> {
+            use std::sync::mpsc::RecvTimeoutError;
+            if !in_sim() {
+                return self.inner.recv_timeout(timeout);
+            }
+            let total = u64::try_from(timeout.as_nanos()).unwrap_or(u64::MAX);
+            let mut waited = 0u64;
+            loop {
+                match self.try_recv() {
+                    Ok(v) => return Ok(v),
+                    Err(TryRecvError::Disconnected) => return Err(RecvTimeoutError::Disconnected),
+                    Err(TryRecvError::Empty) => {
+                        if waited >= total {
+                            return Err(RecvTimeoutError::Timeout);
+                        }
+                        let step = 50_000.min(total - waited).max(1);
+                        with_sim(|s| s.sleep(step));
+                        waited += step;
+                    }
+                }
+            }
         }
     }
     impl<T> Drop for Receiver<T> {
